@@ -598,6 +598,14 @@ impl ResolvesServerCert for MutexCertificateResolver {
             );
             return None;
         };
+        // RFC 1034 §3.1 absolute form: `example.com.` and `example.com` are
+        // the same host. rustls accepts a server name with one trailing dot
+        // and hands it over untrimmed; `upgrade_handshake` strips that dot
+        // before it takes the strict-SNI snapshot (`names_for_sni`), so the
+        // lookup here must use the same name — otherwise the default
+        // certificate is served on a connection whose snapshot is that of a
+        // loaded certificate.
+        let name = name.strip_suffix('.').unwrap_or(name);
         trace!(
             "{} trying to resolve name: {:?} for signature scheme: {:?}",
             log_module_context!(),
